@@ -48,108 +48,127 @@ Definition typed_lits : list expr := map lit_of all_tys.
 
 Definition unused_name : nat := 4999.
 
-(* every way of replacing exactly one element of l by one of the given expressions *)
-Fixpoint replace_one (cands : list expr) (l : list expr) : list (list expr) :=
+(* Replacement literals for argument position i of a call to `name`: only types that NO
+   definition of that name accepts at that position, so that the call itself loses every
+   meaning whatever the other arguments are (a mutant that merely switches to another
+   overload could become well-typed again further up through a library overload the model
+   does not list, e.g. `mod: (Integer, MachineInteger) -> MachineInteger`).                *)
+Definition pos_free (F : list fundef) (name i : nat) (t : ty) : bool :=
+  forallb (fun fd => negb (Nat.eqb (fd_name fd) name)
+                     || match nth_error (fd_params fd) i with
+                        | Some u => negb (ty_eqb u t)
+                        | None => true
+                        end)%bool F.
+Definition arity_free (F : list fundef) (name n : nat) : bool :=
+  forallb (fun fd => negb (Nat.eqb (fd_name fd) name) || negb (Nat.eqb (List.length (fd_params fd)) n))%bool F.
+
+Fixpoint replace_at (F : list fundef) (name i : nat) (l : list expr) : list (list expr) :=
   match l with
   | [] => []
-  | a :: r => map (fun c => c :: r) cands ++ map (fun r' => a :: r') (replace_one cands r)
+  | a :: r =>
+      map (fun t => lit_of t :: r) (filter (pos_free F name i) all_tys)
+      ++ map (fun r' => a :: r') (replace_at F name (S i) r)
   end.
 
 (* local mutations of a call f(args) *)
-Definition mut_call (k : kind) (name : nat) (args : list expr) : list (nat * list expr) :=
+Definition mut_call (k : kind) (F : list fundef) (name : nat) (args : list expr) : list (nat * list expr) :=
   match k with
-  | KArgType => map (fun a => (name, a)) (replace_one typed_lits args)
+  | KArgType => map (fun a => (name, a)) (replace_at F name 0 args)
   | KArity =>
-      (match args with [] => [] | _ => [(name, removelast args)] end)
-      ++ map (fun l => (name, args ++ [l])) [lit_of TMI; lit_of TBool]
+      (match args with
+       | [] => []
+       | _ => if arity_free F name (List.length args - 1) then [(name, removelast args)] else []
+       end)
+      ++ (if arity_free F name (S (List.length args))
+          then map (fun l => (name, args ++ [l])) [lit_of TMI; lit_of TBool] else [])
   | KUndefName => [(unused_name, args)]
   | _ => []
   end.
 
 (* apply a local mutation at exactly one node of an expression / statement *)
-Fixpoint mu_e (k : kind) (e : expr) {struct e} : list expr :=
+Fixpoint mu_e (k : kind) (F : list fundef) (e : expr) {struct e} : list expr :=
   match e with
   | ELit _ => []
   | EGlob _ => match k with KUndefName => [EGlob unused_name] | _ => [] end
   | ELoc _ => []
-  | EPrim p args => map (EPrim p) (shrink_one (mu_e k) args)
+  | EPrim p args => map (EPrim p) (shrink_one (mu_e k F) args)
   | ECall n args =>
-      map (fun na => ECall (fst na) (snd na)) (mut_call k n args)
-      ++ map (ECall n) (shrink_one (mu_e k) args)
+      map (fun na => ECall (fst na) (snd na)) (mut_call k F n args)
+      ++ map (ECall n) (shrink_one (mu_e k F) args)
   | EIf c a b =>
-      map (fun c' => EIf c' a b) (mu_e k c) ++ map (fun a' => EIf c a' b) (mu_e k a)
-      ++ map (fun b' => EIf c a b') (mu_e k b)
-  | EAnd a b => map (fun a' => EAnd a' b) (mu_e k a) ++ map (fun b' => EAnd a b') (mu_e k b)
-  | EOr a b => map (fun a' => EOr a' b) (mu_e k a) ++ map (fun b' => EOr a b') (mu_e k b)
-  | ESeq ss e' => map (fun ss' => ESeq ss' e') (shrink_one (mu_s k) ss) ++ map (fun x => ESeq ss x) (mu_e k e')
-  | EMac m e' => map (EMac m) (mu_e k e')
-  | EListLit b es => map (EListLit b) (shrink_one (mu_e k) es)
+      map (fun c' => EIf c' a b) (mu_e k F c) ++ map (fun a' => EIf c a' b) (mu_e k F a)
+      ++ map (fun b' => EIf c a b') (mu_e k F b)
+  | EAnd a b => map (fun a' => EAnd a' b) (mu_e k F a) ++ map (fun b' => EAnd a b') (mu_e k F b)
+  | EOr a b => map (fun a' => EOr a' b) (mu_e k F a) ++ map (fun b' => EOr a b') (mu_e k F b)
+  | ESeq ss e' => map (fun ss' => ESeq ss' e') (shrink_one (mu_s k F) ss) ++ map (fun x => ESeq ss x) (mu_e k F e')
+  | EMac m e' => map (EMac m) (mu_e k F e')
+  | EListLit b es => map (EListLit b) (shrink_one (mu_e k F) es)
   end
-with mu_s (k : kind) (s : stmt) {struct s} : list stmt :=
+with mu_s (k : kind) (F : list fundef) (s : stmt) {struct s} : list stmt :=
   match s with
-  | SAssG g e => map (SAssG g) (mu_e k e)   (* `g9999 := e` would DECLARE g9999 (langenvs.tex:323-326) *)
-  | SAssL l e => map (SAssL l) (mu_e k e)
-  | SPrint es => map SPrint (shrink_one (mu_e k) es)
+  | SAssG g e => map (SAssG g) (mu_e k F e)   (* `g9999 := e` would DECLARE g9999 (langenvs.tex:323-326) *)
+  | SAssL l e => map (SAssL l) (mu_e k F e)
+  | SPrint es => map SPrint (shrink_one (mu_e k F) es)
   | SIf c a b =>
-      map (fun c' => SIf c' a b) (mu_e k c)
-      ++ map (fun a' => SIf c a' b) (shrink_one (mu_s k) a) ++ map (fun b' => SIf c a b') (shrink_one (mu_s k) b)
+      map (fun c' => SIf c' a b) (mu_e k F c)
+      ++ map (fun a' => SIf c a' b) (shrink_one (mu_s k F) a) ++ map (fun b' => SIf c a b') (shrink_one (mu_s k F) b)
   | SWhile c body =>
-      map (fun c' => SWhile c' body) (mu_e k c) ++ map (fun b' => SWhile c b') (shrink_one (mu_s k) body)
+      map (fun c' => SWhile c' body) (mu_e k F c) ++ map (fun b' => SWhile c b') (shrink_one (mu_s k F) body)
   | SFor lo hi body =>
-      map (fun x => SFor x hi body) (mu_e k lo) ++ map (fun x => SFor lo x body) (mu_e k hi)
-      ++ map (fun b' => SFor lo hi b') (shrink_one (mu_s k) body)
+      map (fun x => SFor x hi body) (mu_e k F lo) ++ map (fun x => SFor lo x body) (mu_e k F hi)
+      ++ map (fun b' => SFor lo hi b') (shrink_one (mu_s k F) body)
   | SForIn b l body =>
-      map (fun x => SForIn b x body) (mu_e k l) ++ map (fun b' => SForIn b l b') (shrink_one (mu_s k) body)
+      map (fun x => SForIn b x body) (mu_e k F l) ++ map (fun b' => SForIn b l b') (shrink_one (mu_s k F) body)
   | SBreak | SIterate => []
-  | SReturn e => map SReturn (mu_e k e)
-  | SExit c s' => map (fun c' => SExit c' s') (mu_e k c) ++ map (fun x => SExit c x) (mu_s k s')
-  | SExitV c e => map (fun c' => SExitV c' e) (mu_e k c) ++ map (fun x => SExitV c x) (mu_e k e)
+  | SReturn e => map SReturn (mu_e k F e)
+  | SExit c s' => map (fun c' => SExit c' s') (mu_e k F c) ++ map (fun x => SExit c x) (mu_s k F s')
+  | SExitV c e => map (fun c' => SExitV c' e) (mu_e k F c) ++ map (fun x => SExitV c x) (mu_e k F e)
   | SCall n args =>
-      map (fun na => SCall (fst na) (snd na)) (mut_call k n args)
-      ++ map (SCall n) (shrink_one (mu_e k) args)
-  | SError e => map SError (mu_e k e)
+      map (fun na => SCall (fst na) (snd na)) (mut_call k F n args)
+      ++ map (SCall n) (shrink_one (mu_e k F) args)
+  | SError e => map SError (mu_e k F e)
   | SNever | SThrow _ => []
   | STry body hs =>
-      map (fun b' => STry b' hs) (shrink_one (mu_s k) body)
+      map (fun b' => STry b' hs) (shrink_one (mu_s k F) body)
       ++ map (fun hs' => STry body hs')
-             (shrink_one (fun h : nat * list stmt => map (fun b => (fst h, b)) (shrink_one (mu_s k) (snd h))) hs)
+             (shrink_one (fun h : nat * list stmt => map (fun b => (fst h, b)) (shrink_one (mu_s k F) (snd h))) hs)
   end.
 
 Definition with_body (fd : fundef) (ls : list (ty * expr)) (b : list stmt) (r : expr) : fundef :=
   mkFun (fd_name fd) (fd_params fd) (fd_ret fd) ls b r (fd_pure fd) (fd_nglob fd).
 
-Definition mu_fun (k : kind) (fd : fundef) : list fundef :=
+Definition mu_fun (k : kind) (F : list fundef) (fd : fundef) : list fundef :=
   match k with
   | KRetType =>
       map (fun t => with_body fd (fd_locals fd) (fd_body fd) (lit_of t))
           (filter (fun t => negb (ty_eqb t (fd_ret fd))) all_tys)
   | KAmbiguous | KConstAssign => []
   | _ =>
-      map (fun b => with_body fd (fd_locals fd) b (fd_result fd)) (shrink_one (mu_s k) (fd_body fd))
-      ++ map (fun r => with_body fd (fd_locals fd) (fd_body fd) r) (mu_e k (fd_result fd))
+      map (fun b => with_body fd (fd_locals fd) b (fd_result fd)) (shrink_one (mu_s k F) (fd_body fd))
+      ++ map (fun r => with_body fd (fd_locals fd) (fd_body fd) r) (mu_e k F (fd_result fd))
       ++ map (fun ls => with_body fd ls (fd_body fd) (fd_result fd))
-             (shrink_one (fun le : ty * expr => map (fun e => (fst le, e)) (mu_e k (snd le))) (fd_locals fd))
+             (shrink_one (fun le : ty * expr => map (fun e => (fst le, e)) (mu_e k F (snd le))) (fd_locals fd))
   end.
 
-Definition mu_item (k : kind) (it : item) : list item :=
+Definition mu_item (k : kind) (F : list fundef) (it : item) : list item :=
   match k with
   | KAmbiguous | KConstAssign => []
   | _ =>
       match it with
-      | IConst t e => map (IConst t) (mu_e k e)
-      | IVar t e => map (IVar t) (mu_e k e)
-      | IFun fd => map IFun (mu_fun k fd)
-      | IStmt s => map IStmt (mu_s k s)
+      | IConst t e => map (IConst t) (mu_e k F e)
+      | IVar t e => map (IVar t) (mu_e k F e)
+      | IFun fd => map IFun (mu_fun k F fd)
+      | IStmt s => map IStmt (mu_s k F s)
       end
   end.
 
 (* (index of the mutated form, mutant) for in-place mutations *)
-Fixpoint mu_items (k : kind) (i : nat) (p : prog) : list (nat * prog) :=
+Fixpoint mu_items (k : kind) (F : list fundef) (i : nat) (p : prog) : list (nat * prog) :=
   match p with
   | [] => []
   | it :: r =>
-      map (fun it' => (i, it' :: r)) (mu_item k it)
-      ++ map (fun ir => (fst ir, it :: snd ir)) (mu_items k (S i) r)
+      map (fun it' => (i, it' :: r)) (mu_item k F it)
+      ++ map (fun ir => (fst ir, it :: snd ir)) (mu_items k F (S i) r)
   end.
 
 (* a second definition of fd's name with the same parameters and another result type, placed
@@ -186,7 +205,7 @@ Definition muts (k : kind) (p : prog) : list (nat * prog) :=
   match k with
   | KAmbiguous => ambig_items 0 p
   | KConstAssign => const_assigns (globals_of p) 0 p
-  | _ => mu_items k 0 p
+  | _ => mu_items k (funs_of p) 0 p
   end.
 
 Definition mutate (k : kind) (p : prog) (site : nat) : prog :=
